@@ -134,6 +134,25 @@ def big_rw_programs(rnd):
     return out
 
 
+def regroup_programs(rnd):
+    """inside one dispatch round a callback cancels a request on a descriptor lower in the poll array (the array is compacted) and
+    starts a connection (the array grows again): the fresh descriptor must not inherit readiness - the connection ends only when the
+    kernel says so"""
+    out = []
+    for first in ("read", "write"):
+        for plan in ("P:300", "R:300", "P:300 O", "N O"):
+            for timeo in (-1, 1000):
+                for extra in (0, 1):
+                    L = ["prog net", "nfd %d" % (3 + extra), "script 2 rc 0", "  cancel 1", "  connect 9 %d %s" % (timeo, plan), "endscript", "main",
+                         "  rx 2 D 5 0 0", "  tx 2 D 5 0 0", "  read 1 0 8 1"]
+                    if extra:
+                        L.append("  read 5 3 8 1")
+                    pair = ["  read 2 2 5 1", "  write 3 2 5 1"] if first == "read" else ["  write 2 2 5 1", "  read 3 2 5 1"]
+                    L += pair + ["  drain", "endmain", "end"]
+                    out.append("\n".join(L) + "\n")
+    return out
+
+
 def accept_program(rnd):
     L = ["prog net", "nfd 1", "main"]
     t = 0
@@ -168,6 +187,7 @@ def run(c, exe=None):
     c.cov["enumerated_cases"]["NetConnect"] = len(cases)
     progs += [connect_program(x) for x in cases]
     progs += big_rw_programs(rnd)
+    progs += regroup_programs(rnd)
     c.cov["exhaustive"] = True
     for _ in range(c.pick(600, 12000)):
         progs.append(random_program(rnd))
